@@ -1,4 +1,5 @@
 import ShexerModel.GeneratedStr
+import ShexerModel.Model.Ttl
 open Shexer PyOps
 
 /-! Driver for the translator's own correspondence check (fragment S): the Python-string primitives of `Base/PyOps.lean`
@@ -18,6 +19,8 @@ def showExc : PyExc → String
   | .outOfFuel => "OutOfFuel"
   | .typeError => "TypeError"
 def showBool (b : Bool) : String := if b then "bool 1" else "bool 0"
+/-- stand-in for Python's `float()` on the tokens the check generates (sign, digits, one dot): `none` = ValueError, `some b` = whole number -/
+def floatStub (t : List Char) : Option Bool := if Ttl.isNum t then some (Ttl.isIntegral t) else none
 def resolveStub (b r : List Char) : List Char := "[".toList ++ b ++ "|".toList ++ r ++ "]".toList
 
 def step (line : String) : String :=
@@ -30,14 +33,20 @@ def step (line : String) : String :=
   | ["in", a, b] => showBool (isIn (decStr a) (decStr b))
   | ["strip", a] => "str " ++ encStr (strip (decStr a))
   | "F" :: name :: flag :: opt :: strs =>
-    match GenS.dispatch resolveStub name (strs.map decStr) (flag == "1") (if opt == "N" then none else some (decStr opt)) with
+    match GenS.dispatch resolveStub floatStub name (strs.map decStr) (flag == "1") (if opt == "N" then none else some (decStr opt)) with
     | none => "nofunc"
     | some (.ok (some r)) => "str " ++ encStr r
     | some (.ok none) => "none"
     | some (.error e) => "err " ++ showExc e
   | "G" :: name :: num :: strs =>       -- a function with an int parameter; `while` loops get far more fuel than any terminating run needs
     let ss := strs.map decStr
-    match GenS.dispatch resolveStub name ss false none (num.toInt?.getD 0) (4 * (ss.foldl (fun a s => a + s.length) 0) + 50) with
+    match GenS.dispatch resolveStub floatStub name ss false none (num.toInt?.getD 0) (4 * (ss.foldl (fun a s => a + s.length) 0) + 50) with
+    | none => "nofunc"
+    | some (.ok (some r)) => "str " ++ encStr r
+    | some (.ok none) => "none"
+    | some (.error e) => "err " ++ showExc e
+  | "H" :: name :: flag :: num :: opt :: strs =>       -- flag, int, optional string and strings all given
+    match GenS.dispatch resolveStub floatStub name (strs.map decStr) (flag == "1") (if opt == "N" then none else some (decStr opt)) (num.toInt?.getD 0) 1000 with
     | none => "nofunc"
     | some (.ok (some r)) => "str " ++ encStr r
     | some (.ok none) => "none"
